@@ -42,6 +42,21 @@ def frozen():
     return _frozen
 
 
+_fns = None
+
+
+def frozen_fns():
+    """paths of every function of the pinned tree (all feature sets)"""
+    global _fns
+    if _fns is None:
+        _fns = set()
+        for crate, per in frozen().items():
+            if isinstance(per, dict):
+                for key, tab in per.items():
+                    _fns.update(tab.get("fns", ()))
+    return _fns
+
+
 def _kind(k):
     return re.sub(r"[ ({].*$", "", k or "")
 
@@ -141,3 +156,125 @@ def rewrite(text, ren):
     for mk, f in marks.items():
         text = text.replace(mk, f)
     return text
+
+
+# ---------------------------------------------------------------------------------------------------------------------------
+# Generic parameter names.  `impl<A: Codec> .. SeqIter<'_, A>` and `impl<'a, C> .. SeqIter<'a, C> where C: Codec` are the same
+# impl; the rule tables spell the pinned tree's names.  Every function, impl and ADT is keyed by its path with its own type and
+# const parameters replaced positionally ($0, $1, ..) and lifetimes erased; an item whose key exists in the frozen table gets
+# the frozen parameter names back, in its own record and wherever another body names it in identity form.
+_LT = re.compile(r"'\w+")
+
+
+def _tygens(names):
+    return [n for n in (names or []) if not n.startswith("'") and not n.startswith("<")]
+
+
+def _gsub(text, m):
+    """simultaneous whole-identifier replacement (never after `::`, so `Dna::C` is not the parameter `C`)"""
+    if not m or not isinstance(text, str):
+        return text
+    rx = re.compile(r"(?<![\w:'])(" + "|".join(re.escape(k) for k in sorted(m, key=len, reverse=True)) + r")(?![\w])")
+    return rx.sub(lambda mo: m[mo.group(1)], text)
+
+
+def gkey(text, names):
+    names = _tygens(names)
+    return _gsub(_LT.sub("'_", text or ""), {n: "$%d" % i for i, n in enumerate(names)})
+
+
+def _impl_key(imp):
+    return gkey(imp.get("trait_ref") or imp.get("self_ty") or "", imp.get("generics"))
+
+
+def freeze_generics(data):
+    out = {"fn": {}, "impl": {}, "adt": {}}
+
+    def put(tab, k, names):
+        names = _tygens(names)
+        if k in tab and tab[k] != names:
+            tab[k] = None          # ambiguous: never renamed
+        else:
+            tab[k] = names
+    for b in data["bodies"]:
+        put(out["fn"], gkey(b["path"], b.get("generics")), b.get("generics"))
+    for f in data.get("fns", []):
+        pass
+    for i in data["impls"]:
+        put(out["impl"], _impl_key(i), i.get("generics"))
+    for a in data["adts"]:
+        put(out["adt"], a["path"], a.get("generics"))
+    return out
+
+
+def _rmap(names, fnames):
+    names = _tygens(names)
+    if not fnames or len(names) != len(fnames):
+        return {}
+    return {a: b for a, b in zip(names, fnames) if a != b}
+
+
+def canon_generics(d, fz):
+    """rewrite crate dict d in place; returns {item: "C->A, LEN->K"} for the evidence"""
+    if not fz:
+        return {}
+    report = {}
+    impl_R = {}
+    for i in d["impls"]:
+        impl_R[i["id"]] = _rmap(i.get("generics"), fz["impl"].get(_impl_key(i)))
+    body_R, path_R = {}, {}
+    for b in d["bodies"]:
+        R = None
+        k = gkey(b["path"], b.get("generics"))
+        if k in fz["fn"]:
+            R = _rmap(b.get("generics"), fz["fn"][k])
+        else:
+            # a new function (or a renumbered closure): the names of its impl, else of the enclosing function
+            imp = b.get("impl") or {}
+            if imp.get("id") in impl_R:
+                R = impl_R[imp["id"]]
+        body_R[b["id"]] = R
+    # closures / nested items without a key inherit from the enclosing function
+    by_path = {}
+    for b in d["bodies"]:
+        by_path.setdefault(b["path"], []).append(b)
+    for b in d["bodies"]:
+        if body_R[b["id"]] is None:
+            par = b.get("parent")
+            ps = by_path.get(par) or []
+            body_R[b["id"]] = (body_R.get(ps[0]["id"]) if len(ps) == 1 else None) or {}
+    for p, bs in by_path.items():
+        rs = [body_R[b["id"]] for b in bs]
+        if all(r == rs[0] for r in rs):
+            path_R[p] = rs[0]
+    if not any(body_R.values()) and not any(impl_R.values()) and \
+            not any(_rmap(a.get("generics"), fz["adt"].get(a["path"])) for a in d["adts"]):
+        return {}
+    IDENT = ("def", "def_noargs", "resolved", "resolved_impl_self", "impl_self")
+
+    def walk(x, R):
+        if isinstance(x, str):
+            return _gsub(x, R)
+        if isinstance(x, list):
+            return [walk(e, R) for e in x]
+        if isinstance(x, dict):
+            if "resolved" in x and "def" in x:
+                Rc = path_R.get(x.get("resolved")) if x.get("resolved_local") else None
+                if Rc is None and x.get("krate") == d["crate"]:
+                    Rc = path_R.get(x.get("def"))
+                return {k: (_gsub(v, Rc) if k in IDENT else walk(v, R)) for k, v in x.items()}
+            return {k: walk(v, R) for k, v in x.items()}
+        return x
+    newb = []
+    for b in d["bodies"]:
+        R = body_R[b["id"]]
+        if R:
+            report[b["path"]] = ", ".join("%s->%s" % kv for kv in sorted(R.items()))
+        # callee records are rewritten even when this body keeps its names
+        newb.append(walk(b, R or {}))
+    d["bodies"] = newb
+    d["fns"] = [walk(f, path_R.get(f["path"]) or ((impl_R.get((f.get("impl") or {}).get("id"))) or {})) for f in d.get("fns", [])]
+    d["impls"] = [walk(i, impl_R.get(i["id"]) or {}) for i in d["impls"]]
+    d["adts"] = [walk(a, _rmap(a.get("generics"), fz["adt"].get(a["path"]))) for a in d["adts"]]
+    d["evals"] = [walk(e, impl_R.get((e.get("impl") or {}).get("id")) or {}) for e in d.get("evals", [])]
+    return report
